@@ -79,7 +79,7 @@ func enduranceOracle(in enduranceIn) probe.Outcome {
 		}
 	case "sizes-multiple-of-4096":
 		// Messages whose authenticated part (header .. end of the ciphertext) is an exact multiple of 4096 octets - of 4096, 8192,
-		// 32768, 61440. How much padding a sender adds is its own business, so nonces of sixteen lengths (16 octets apart) are
+		// 32768, 61440, 65536 (the largest SK payload there is). How much padding a sender adds is its own business, so nonces of sixteen lengths (16 octets apart) are
 		// protected; with minimal padding one in sixteen hits the size. Every one is opened by the independent receiver and by the peer SA, an altered copy is refused, and a
 		// small message follows on the same SA objects (whatever the large one left behind must not disturb it).
 		for _, integ := range []int{0, 2} {
@@ -93,7 +93,7 @@ func enduranceOracle(in enduranceIn) probe.Outcome {
 			icv := s.Ref().Integ.OutLen
 			small := model.Message{Header: model.Header{ISPI: 3, RSPI: 4, Major: 2, Exchange: 37, Flags: 0x08}, Payloads: []model.Payload{{Kind: model.KNonce, Data: model.Bytes{9, 9, 9}}}}
 			hits := 0
-			for _, blocks := range []int{1, 2, 8, 15} {
+			for _, blocks := range []int{1, 2, 8, 15, 16} {
 				for i := 1; i <= in.N; i++ {
 					// with minimal padding a nonce of 4096*blocks-53 octets gives the size; a sender that pads more reaches it from
 					// a nonce that is 16, 32, ... 240 octets shorter
@@ -129,7 +129,7 @@ func enduranceOracle(in enduranceIn) probe.Outcome {
 						return probe.Fail("%s with one bit of the header flipped is ACCEPTED", what)
 					}
 					x = append([]byte(nil), w...)
-					x[len(x)-icv-1-i%64] ^= 1
+					x[len(x)-icv-1-(i-1)%64] ^= 1
 					if _, err := libUnprotect(x, b, !asI, true); err == nil {
 						return probe.Fail("%s with one bit of the ciphertext flipped is ACCEPTED", what)
 					}
